@@ -330,6 +330,10 @@ func checkFieldsRead(c *core.Check, ppk, xpk *packages.Package, node *types.Inte
 			c.Ok(r.prefix+"-field", key, cc.Pos(), "read outside the node's own case (e.g. by the code that "+r.verb+" its parent)")
 			continue
 		}
+		if read[f] && !used[f] && (isASTNodeType(f.Type()) || isNodeSlice(f.Type())) {
+			c.Bad(r.prefix+"-field", key, cc.Pos(), "the code that "+r.verb+" *ast."+nt.Obj().Name()+" only tests "+key+" (a nil comparison) and never hands the child on: the child itself is dropped")
+			continue
+		}
 		if read[f] && !used[f] && isTokenField(f) && !r.compareIsUse {
 			c.Bad(r.prefix+"-field", key, cc.Pos(), "the code that "+r.verb+" *ast."+nt.Obj().Name()+" only compares "+key+" (==, !=, !) and never prints it or switches over it: the token the parser stored is replaced by whatever constant the printer emits")
 			continue
